@@ -1,9 +1,12 @@
 """C02 - forward-mode derivatives exact for every call configuration (catalogue walk)."""
 from ..judges import harness_table, run_catalog
 from ..par import replay_generic
+from ..kinks import factory as kinks_factory
 
 PROP = "C02"
 HARNESSES = harness_table(PROP, families=("U", "B", "R", "S", "K", "W", "L"))
+
+HARNESSES["kinks"] = kinks_factory(PROP, "fwd")
 
 
 def run(ctx):
